@@ -4,13 +4,13 @@
 
 void harness(void)
 {
-        uint64_t out;
         size_t cap = h_setup_buffers();
         (void)cap;
+        h_setup_var(CAT_VAR_BUF_STRING);
         g_len = nondet_size();
         g_k = nondet_size();
         g_sat = 0; g_ndig = 0; g_size = 0; g_nesc = 0;
         h_obj.position = nondet_size();
-        parse_uint_decimal(&h_obj, &out);
+        parse_buffer_string(&h_obj);
         __CPROVER_assert(0, "CANARY end of harness reachable");
 }
